@@ -126,12 +126,23 @@ func deviationTag(p rtcp.Packet) string {
 	return ""
 }
 
-func tagged(why string, p rtcp.Packet) string {
-	if t := deviationTag(p); t != "" {
-		return why + " [" + t + "]"
+// tagged appends the packet's deviation tag when that deviation can explain this kind of failure
+func tagged(why string, p rtcp.Packet, explains ...string) string {
+	t := deviationTag(p)
+	for _, e := range explains {
+		if t == e {
+			return why + " [" + t + "]"
+		}
 	}
 	return why
 }
+
+const (
+	tagSLI  = "sli-packet-type"
+	tagCCFB = "ccfb-one-metric-block"
+	tagXR   = "xr-unaligned-block"
+	tagREMB = "remb-mantissa-zero"
+)
 
 // canonTokens: the value a decoder must return for p: p after the documented quantisations; XR block
 // headers as Marshal fills them in.
@@ -159,7 +170,7 @@ func rtOracle(args, res string, kindsOnly bool) string {
 		return ""
 	}
 	if res == "err" {
-		return tagged("Marshal rejects a list of well-formed packets", ps[0])
+		return "Marshal rejects a list of well-formed packets"
 	}
 	if !hasPrefix(res, "ok ") {
 		return "round trip: " + clip(res, 40)
@@ -167,30 +178,25 @@ func rtOracle(args, res string, kindsOnly bool) string {
 	parts := splitSemi(res[3:])
 	if len(parts) < 2 || parts[1] == "err" {
 		for _, p := range ps {
-			if deviationTag(p) != "" {
-				return tagged("own output not accepted by rtcp.Unmarshal", p)
+			if deviationTag(p) == tagCCFB {
+				return tagged("own output not accepted by rtcp.Unmarshal", p, tagCCFB)
 			}
 		}
 		return "own output not accepted by rtcp.Unmarshal"
 	}
 	qs := getPackets(NewR(parts[1]))
 	if len(qs) != len(ps) {
-		for _, p := range ps {
-			if deviationTag(p) != "" {
-				return tagged(fmt.Sprintf("%d packets in, %d out", len(ps), len(qs)), p)
-			}
-		}
 		return fmt.Sprintf("%d packets in, %d out", len(ps), len(qs))
 	}
 	for i := range ps {
 		if kindName(ps[i]) != kindName(qs[i]) {
-			return tagged(fmt.Sprintf("packet %d: %s comes back as %s", i, kindName(ps[i]), kindName(qs[i])), ps[i])
+			return tagged(fmt.Sprintf("packet %d: %s comes back as %s", i, kindName(ps[i]), kindName(qs[i])), ps[i], tagSLI)
 		}
 		if kindsOnly {
 			continue
 		}
 		if canonTokens(ps[i]) != packetTokens(qs[i]) {
-			return tagged(fmt.Sprintf("packet %d (%s) decodes to a different value", i, kindName(ps[i])), ps[i])
+			return tagged(fmt.Sprintf("packet %d (%s) decodes to a different value", i, kindName(ps[i])), ps[i], tagCCFB, tagREMB)
 		}
 	}
 	if kindsOnly {
@@ -726,12 +732,12 @@ func xrOracle(args, res string) string {
 	off := 8
 	for i, blk := range p.Reports {
 		if off+4 > len(b) {
-			return tagged(fmt.Sprintf("block %d missing from the output", i), p)
+			return tagged(fmt.Sprintf("block %d missing from the output", i), p, tagXR)
 		}
 		bt, ts := int(b[off]), int(b[off+1])
 		size := (int(binary.BigEndian.Uint16(b[off+2:])) + 1) * 4
 		if off+size > len(b) {
-			return tagged(fmt.Sprintf("block %d: block length runs past the packet", i), p)
+			return tagged(fmt.Sprintf("block %d: block length runs past the packet", i), p, tagXR)
 		}
 		hdr, omits, _, _ := xrParts(blk)
 		kind := xrKindOf(blk)
@@ -744,7 +750,7 @@ func xrOracle(args, res string) string {
 		if want := xrBlockSizeSpec(blk); want%4 == 0 && size != want {
 			return fmt.Sprintf("block %d: block length says %d octets, content has %d", i, size, want)
 		} else if want%4 != 0 {
-			return tagged(fmt.Sprintf("block %d: content of %d octets is not a whole number of words", i, want), p)
+			return tagged(fmt.Sprintf("block %d: content of %d octets is not a whole number of words", i, want), p, tagXR)
 		}
 		wantTS := -1
 		switch kind {
@@ -772,7 +778,7 @@ func xrOracle(args, res string) string {
 		off += size
 	}
 	if off != len(b) {
-		return tagged("blocks do not tile the packet", p)
+		return tagged("blocks do not tile the packet", p, tagXR)
 	}
 	return ""
 }
@@ -798,4 +804,229 @@ func xrBlockSizeSpec(b rtcp.ReportBlock) int {
 		return 4 + len(v.Bytes)
 	}
 	return 0
+}
+
+// ---------- C16: fixed-width wire units, each restated from its RFC diagram
+func unitOracle(base, kind, args, res string) string {
+	isOK := hasPrefix(res, "ok")
+	switch base + "." + kind {
+	case "dec.HDR":
+		b := NewR(args).H()
+		valid := len(b) >= 4 && b[0]>>6 == 2
+		if valid != isOK {
+			if isOK {
+				return "header with a version other than 2 or fewer than 4 octets accepted"
+			}
+			return "valid header rejected"
+		}
+		if isOK {
+			want := fmt.Sprintf("ok %d %d %d %d", b[0]>>5&1, b[0]&31, b[1], binary.BigEndian.Uint16(b[2:]))
+			if res != want {
+				return "decoded header fields differ from the RFC 3550 positions: want " + want
+			}
+		}
+	case "enc.HDR":
+		h := getHeader(NewR(args))
+		if (h.Count <= 31) != isOK {
+			if isOK {
+				return "a count above 31 was encoded"
+			}
+			return "valid header rejected"
+		}
+		if isOK {
+			b0 := byte(0x80) | h.Count
+			if h.Padding {
+				b0 |= 0x20
+			}
+			want := okHex([]byte{b0, byte(h.Type), byte(h.Length >> 8), byte(h.Length)})
+			if res != want {
+				return "encoded header differs from the RFC 3550 layout: want " + want
+			}
+		}
+	case "dec.DELTA":
+		b := NewR(args).H()
+		want := "err"
+		if len(b) == 1 {
+			want = fmt.Sprintf("ok 1 %d", 250*int64(b[0]))
+		} else if len(b) == 2 {
+			want = fmt.Sprintf("ok 2 %d", 250*int64(int16(binary.BigEndian.Uint16(b))))
+		}
+		if res != want {
+			return "receive delta decodes to " + clip(res, 30) + ", want " + want
+		}
+	case "enc.DELTA":
+		r := NewR(args)
+		typ, d := r.U(), r.I()
+		q := d / 250
+		want := "err"
+		if typ == 1 && q >= 0 && q <= 255 {
+			want = okHex([]byte{byte(q)})
+		} else if typ == 2 && q >= -32768 && q <= 32767 {
+			want = okHex([]byte{byte(uint16(q) >> 8), byte(q)})
+		}
+		if res != want {
+			return "receive delta encodes to " + clip(res, 30) + ", want " + want
+		}
+	case "dec.RREP":
+		b := NewR(args).H()
+		if len(b) < 24 {
+			if isOK {
+				return "reception report shorter than 24 octets accepted"
+			}
+			return ""
+		}
+		be := binary.BigEndian
+		want := fmt.Sprintf("ok %d %d %d %d %d %d %d", be.Uint32(b), b[4], uint32(b[5])<<16|uint32(b[6])<<8|uint32(b[7]),
+			be.Uint32(b[8:]), be.Uint32(b[12:]), be.Uint32(b[16:]), be.Uint32(b[20:]))
+		if res != want {
+			return "reception report decodes to other fields than RFC 3550 §6.4.1 assigns"
+		}
+	case "enc.RREP":
+		x := getRRep(NewR(args))
+		if (x.TotalLost < 1<<24) != isOK {
+			return ""
+		}
+		if isOK {
+			b := make([]byte, 24)
+			be := binary.BigEndian
+			be.PutUint32(b, x.SSRC)
+			be.PutUint32(b[4:], x.TotalLost)
+			b[4] = x.FractionLost
+			be.PutUint32(b[8:], x.LastSequenceNumber)
+			be.PutUint32(b[12:], x.Jitter)
+			be.PutUint32(b[16:], x.LastSenderReport)
+			be.PutUint32(b[20:], x.Delay)
+			if res != okHex(b) {
+				return "reception report encodes differently from RFC 3550 §6.4.1"
+			}
+		}
+	case "ccfbmetric.dec":
+		b := NewR(args).H()
+		if len(b) != 2 {
+			return ""
+		}
+		w := binary.BigEndian.Uint16(b)
+		want := "ok 0 0 0"
+		if w>>15 == 1 {
+			want = fmt.Sprintf("ok 1 %d %d", w>>13&3, w&0x1fff)
+		}
+		if res != want {
+			return "metric block decodes to " + clip(res, 30) + ", RFC 8888 says " + want
+		}
+	case "ccfbmetric.enc":
+		m := getMetric(NewR(args))
+		if !isOK || m.ECN > 3 || m.ArrivalTimeOffset > 0x1fff || (!m.Received && (m.ECN != 0 || m.ArrivalTimeOffset != 0)) {
+			return "" // outside the well-formed values (a block not received carries no ECN / arrival time)
+		}
+		w := uint16(0)
+		if m.Received {
+			w = 1<<15 | uint16(m.ECN)<<13 | m.ArrivalTimeOffset
+		}
+		if res != okHex([]byte{byte(w >> 8), byte(w)}) {
+			return "metric block encodes differently from RFC 8888"
+		}
+	case "dec.RLC":
+		b := NewR(args).H()
+		if len(b) != 2 || b[0]>>7 != 0 || !isOK {
+			return ""
+		}
+		w := binary.BigEndian.Uint16(b)
+		if want := fmt.Sprintf("ok 0 0 %d %d", w>>13&3, w&0x1fff); res != want {
+			return "run-length chunk decodes to " + clip(res, 30) + ", want " + want
+		}
+	case "dec.SVC":
+		b := NewR(args).H()
+		if len(b) != 2 || b[0]>>7 != 1 || !isOK {
+			return ""
+		}
+		w := binary.BigEndian.Uint16(b)
+		want := ""
+		if w>>14&1 == 0 {
+			want = "ok 1 1 0 14"
+			for i := 13; i >= 0; i-- {
+				want += fmt.Sprintf(" %d", w>>uint(i)&1)
+			}
+		} else {
+			want = "ok 1 1 1 7"
+			for i := 6; i >= 0; i-- {
+				want += fmt.Sprintf(" %d", w>>uint(2*i)&3)
+			}
+		}
+		if res != want {
+			return "status vector chunk decodes to " + clip(res, 40) + ", want " + want
+		}
+	}
+	return ""
+}
+
+// ---------- C15 on the decode side: blocks are delimited by their own length fields, each decodes to the Go type
+// of its block type, in order
+func xrDecOracle(b []byte, tokens string) string {
+	if len(b) < 8 {
+		return "extended report shorter than its fixed part accepted"
+	}
+	end := (int(binary.BigEndian.Uint16(b[2:])) + 1) * 4
+	if end > len(b) || end < 8 {
+		end = len(b)
+	}
+	var kinds []int
+	for off := 8; off < end; {
+		if off+4 > end {
+			return "" // not a tiling of whole blocks: the decoder is lenient here and C15 speaks of marshalled reports
+		}
+		bt := int(b[off])
+		size := (int(binary.BigEndian.Uint16(b[off+2:])) + 1) * 4
+		if off+size > end {
+			return ""
+		}
+		if bt >= 1 && bt <= 7 {
+			kinds = append(kinds, bt)
+		} else {
+			kinds = append(kinds, 0)
+		}
+		off += size
+	}
+	p := getBody(NewR(tokens), "XR").(*rtcp.ExtendedReport)
+	if len(p.Reports) != len(kinds) {
+		return fmt.Sprintf("%d blocks on the wire, %d decoded", len(kinds), len(p.Reports))
+	}
+	for i, blk := range p.Reports {
+		if xrKindOf(blk) != kinds[i] {
+			return fmt.Sprintf("block %d of wire type %d decodes to the Go type of block type %d", i, kinds[i], xrKindOf(blk))
+		}
+	}
+	return ""
+}
+
+// expected (packet type, count/FMT) of a packet value, per the RFCs (C05, C03)
+func specTypeCount(p rtcp.Packet) (pt, count int, ok bool) {
+	switch v := p.(type) {
+	case *rtcp.SenderReport:
+		return 200, len(v.Reports), true
+	case *rtcp.ReceiverReport:
+		return 201, len(v.Reports), true
+	case *rtcp.SourceDescription:
+		return 202, len(v.Chunks), true
+	case *rtcp.Goodbye:
+		return 203, len(v.Sources), true
+	case *rtcp.ApplicationDefined:
+		return 204, int(v.SubType), true
+	case *rtcp.TransportLayerNack:
+		return 205, 1, true
+	case *rtcp.RapidResynchronizationRequest:
+		return 205, 5, true
+	case *rtcp.CCFeedbackReport:
+		return 205, 11, true
+	case *rtcp.PictureLossIndication:
+		return 206, 1, true
+	case *rtcp.SliceLossIndication:
+		return 206, 2, true
+	case *rtcp.FullIntraRequest:
+		return 206, 4, true
+	case *rtcp.ReceiverEstimatedMaximumBitrate:
+		return 206, 15, true
+	case *rtcp.ExtendedReport:
+		return 207, 0, true
+	}
+	return 0, 0, false
 }
